@@ -88,6 +88,8 @@ class Interp(object):
 
     # ----------------------------------------------------------------- ground truth helpers
     def _attach(self, gt_children, node):
+        self._seq = getattr(self, "_seq", 0) + 1
+        node["seq"] = self._seq
         if gt_children is None:
             self.forest.append(node)
         else:
@@ -186,10 +188,7 @@ class Interp(object):
         else:
             raise AssertionError(style)
         gt = {"kind": "message", "type": t, "fields": self._expect(fields, decl), "nid": node["nid"]}
-        if cur is None:
-            self.forest.append(gt)
-        else:
-            gt_children.append(gt)
+        self._attach(None if cur is None else gt_children, gt)
 
     def exec_tb(self, node, gt_children, cur):
         exc = excs.make(node["exc"], "tb nid=%d" % node["nid"])
@@ -201,10 +200,7 @@ class Interp(object):
         f = self._fail_fields(exc, getattr(self, "extractors", None))
         f["traceback"] = ANYTEXT
         gt = {"kind": "message", "type": "eliot:traceback", "fields": f, "nid": node["nid"], "tb": True}
-        if cur is None:
-            self.forest.append(gt)
-        else:
-            gt_children.append(gt)
+        self._attach(None if cur is None else gt_children, gt)
 
     # ----------------------------------------------------------------- actions
     def _body(self, node, gt, action):
@@ -447,7 +443,7 @@ class Interp(object):
             ok, tid = self.api("serialize_task_id", cur.serialize_task_id)
             if not ok:
                 return
-            gt_children.append(gt)  # the position is reserved now
+            self._attach(gt_children, gt)  # the position is reserved now
             self.note("reserved", uuid=cur.task_uuid, tid=tid.decode("ascii") if isinstance(tid, bytes) else str(tid), nid=node["nid"])
             if not isinstance(tid, bytes):
                 self.viol("serialize_task_id returned %r, not bytes" % (tid,))
@@ -485,7 +481,7 @@ class Interp(object):
                 return
             if g is f:
                 self.viol("preserve_context returned f itself although an action is current")
-            gt_children.append(gt)
+            self._attach(gt_children, gt)
             self.note("reserved", uuid=cur.task_uuid, tid=None, nid=node["nid"])
 
             def remote(expect_outer):
